@@ -512,7 +512,7 @@ func (h *harness) checkAcceptFS(s string, w cpe.WFN, accepted bool) {
 		for _, r := range reasons {
 			h.r.Count("accept:lenient:" + r)
 		}
-		if len(reasons) == 1 {
+		if len(reasons) == 1 && reasons[0] != specialOpen {
 			h.r.Fail(reasons[0], fmt.Sprintf("%q is accepted -> %q", s, w.BindFS()))
 		}
 		if err := w.Valid(); err != nil {
@@ -829,7 +829,7 @@ func (h *harness) replayKnown() {
 		{lenEmpty, "cpe:2.3:a::c:*:*:*:*:*:*:*:*"},
 		{lenUnquoted, "cpe:2.3:a:b!c:*:*:*:*:*:*:*:*:*"},
 		{lenQuoted, "cpe:2.3:a:\\b:*:*:*:*:*:*:*:*:*"},
-		{lenSpecial, "cpe:2.3:a:??:*:*:*:*:*:*:*:*:*"},
+		{lenSpecial, "cpe:2.3:a:**:*:*:*:*:*:*:*:*:*"},
 		{lenLanguage, "cpe:2.3:a:b:c:d:e:f:notalanguage:*:*:*:*"},
 	} {
 		if w, err := cpe.Unbind(k.s); err == nil {
